@@ -101,3 +101,33 @@ package storage
 //@   assigns nothing
 //@   ensures[C09] every-matcher-holds-absent-label-is-empty: result == (forall i in 0..len(f.matchers) :: f.matchers[i].Matches(series.Labels().Get(f.matchers[i].Name)))
 //@   loop 0 invariant sameslice(lbls, series.Labels()) && (forall i in 0..rangeindex+1 :: f.matchers[i].Matches(series.Labels().Get(f.matchers[i].Name)))
+
+// ---- series_selector.go / filtered_selector.go: GetSeries (C02, C09, C11, C15) --------------------
+//@ func (*seriesSelector).GetSeries
+//@   requires o != nil && o.storage != nil && ctx != nil && numShards >= 1 && 0 <= shard && shard < numShards
+//@   panics may
+//@   ensures[C15] load-error-surfaces: result1 != nil ==> isnil(result0)
+//@   ensures[C02,C11] shard-of-the-loaded-series: result1 == nil ==> len(result0) == (shard+1)*len(o.series)/numShards - shard*len(o.series)/numShards &&
+//@       (forall i in 0..len(result0) :: result0[i].Signature == i && result0[i].Series == o.series[shard*len(o.series)/numShards + i].Series)
+//@   ensures[C12,C17,C20] fresh-copy: result1 == nil ==> fresh(result0)
+
+// filteredSelector.loadSeries: the series of the broader select that pass the filter, in order,
+// signed 0..n-1 (ids dense whatever else the storage holds, C11); a failed load surfaces (C15).
+//@ interface engstore.Filter.Matches(flt, series) r
+//@   pure
+//@ func (*filteredSelector).loadSeries
+//@   requires f != nil && f.selector != nil && f.selector.storage != nil && f.filter != nil && ctx != nil
+//@   panics may
+//@   ghostvar from seqint = constseq(-1)
+//@   at line "f.series = append(f.series, SignedSeries{" set from = store(from, len(f.series), rangeindex)
+//@   ensures[C15] load-error-surfaces: callres("engstore.(*seriesSelector).GetSeries", 1, 1) != nil ==> result != nil
+//@   ensures[C09,C11] kept-series-signed-densely: result == nil ==> forall i in 0..len(f.series) :: f.series[i].Signature == i
+//@   ensures[C09,C11] kept-series-come-from-the-select-in-order: result == nil ==> forall i in 0..len(f.series) :: 0 <= from[i] && from[i] < len(callres("engstore.(*seriesSelector).GetSeries", 1, 0)) &&
+//@       f.series[i].Series == callres("engstore.(*seriesSelector).GetSeries", 1, 0)[from[i]].Series && (i >= 1 ==> from[i-1] < from[i])
+//@   at line "f.series = append(f.series, SignedSeries{" assert[C09] only-series-that-pass-the-filter-are-kept: callres("engstore.Filter.Matches", ncalls("engstore.Filter.Matches"))
+//@   at line "if f.filter.Matches(s) {" assert[C09] every-series-of-the-select-is-offered-to-the-filter: s.Series == series[rangeindex].Series
+//@   loop 0 invariant inv-a: f != nil && f.filter != nil && i == len(f.series) && len(f.series) <= rangeindex + 1 && len(series) <= 9223372036854775807
+//@   loop 0 invariant inv-b: fresh(f.series)
+//@   loop 0 invariant inv-c: ref(f.series) != ref(series) && allocated(series)
+//@   loop 0 invariant signed: forall k in 0..len(f.series) :: f.series[k].Signature == k
+//@   loop 0 invariant picked: forall k in 0..len(f.series) :: 0 <= from[k] && from[k] <= rangeindex && f.series[k].Series == series[from[k]].Series && (k >= 1 ==> from[k-1] < from[k])
